@@ -158,25 +158,16 @@ Definition w_pinfo := Elem "ProgramInformation" [] "" [Elem "Title" [] "t" []].
 Definition w_old := w_mpd "2024-01-01T00:00:00Z" [w_period [w_pinfo; w_burl "a"; w_burl "b"; w_aset]].
 Definition w_new := w_mpd "2024-01-01T00:00:02Z" [w_period [w_pinfo; w_burl "a"; w_aset]].
 
-(** every element of [e] that must carry an id carries one *)
-Fixpoint ids_present (e : elem) : bool :=
-  match e with
-  | Elem t a _ cs =>
-    match checkMandatoryIdAttribute e with Ok _ => true | _ => false end &&
-    (fix go (l : list elem) : bool := match l with [] => true | c :: r => ids_present c && go r end) cs
-  end.
-
-(** The second sentence of the property is false for the code: two documents with all mandatory ids;
-    the removal of the second id-less BaseURL is addressed BaseURL[3] (its index among all
-    children of the Period) and the patch cannot be applied. *)
-Theorem general_refuted :
-  ids_present w_old = true /\ ids_present w_new = true /\
+(** The former witness of the defect repaired by 3800168 (Period children [ProgramInformation; BaseURL a;
+    BaseURL b; AdaptationSet] vs [ProgramInformation; BaseURL a; AdaptationSet]: the removal used to be
+    addressed BaseURL[3], the index among all children): it is now addressed BaseURL[2] and the patch applies. *)
+Theorem idless_removal_applies :
   exists pd, mpdDiff w_old w_new = Ok pd /\
-    In (ORemove [mkStep "MPD" PNone; mkStep "Period" (PAttr "id" "P0"); mkStep "BaseURL" (PIdx 3)]) (p_ops pd) /\
-    apply_ops (p_ops pd) w_old = None.
+    In (ORemove [mkStep "MPD" PNone; mkStep "Period" (PAttr "id" "P0"); mkStep "BaseURL" (PIdx 2)]) (p_ops pd) /\
+    exists new', apply_ops (p_ops pd) w_old = Some new' /\ elem_eqb (canon new') (canon w_new) = true.
 Proof.
-  split; [reflexivity|]. split; [reflexivity|].
-  eexists. split; [vm_compute; reflexivity|]. split; [cbn; tauto|vm_compute; reflexivity].
+  eexists. split; [vm_compute; reflexivity|]. split; [cbn; tauto|].
+  eexists. split; vm_compute; reflexivity.
 Qed.
 
 (* ------------------------------------------------------------------------------------------ *)
